@@ -42,7 +42,7 @@ RULE = (
     "omitted/0/0.25/0.5/2, retry-on-timeout and retry-on-error omitted/true/false, constructor default of retry-until-success) x a "
     "per-attempt service time from {0, 1/1024, 1/4} s. Exhaustive sub-domain: every sequence of length 0-4 over the 9 classes (7381) x "
     "parameter grid (quick: the 22 behaviourally distinct (attempt cap, retry-on-error, retry-on-timeout) combinations with rotating "
-    "wait period / omitted-or-explicit spelling, plus the empty parameter set; thorough: the full 648-point grid). Non-trivial = the real code made >= 2 attempts "
+    "wait period / omitted-or-explicit spelling, plus the empty parameter set and constructor-default-overridden; thorough: the full 1080-point grid incl. the constructor default). Non-trivial = the real code made >= 2 attempts "
     "and the attempted outcomes belong to >= 2 different classes. Distinct = distinct canonical JSON."
 )
 ASSUMPTIONS = [
@@ -456,20 +456,22 @@ def _behaviour_grid():
 
 def _full_grid():
     for retries in (0, 1, 2, 3, 4, 5):
-        for rus in ("omit", False, True):
+        for rus in ("omit", False, True, "ctor", "ctor+false"):
             for wait in ("omit", 0, 0.5, 2):
                 for rot in ("omit", True, False):
                     for roe in ("omit", True, False):
                         p = {"retries": retries}
-                        if rus != "omit":
+                        if rus in (True, False):
                             p["retry-until-success"] = rus
+                        elif rus == "ctor+false":
+                            p["retry-until-success"] = False
                         if wait != "omit":
                             p["retry-wait-period"] = wait
                         if rot != "omit":
                             p["retry-on-timeout"] = rot
                         if roe != "omit":
                             p["retry-on-error"] = roe
-                        yield p
+                        yield p, rus in ("ctor", "ctor+false")
 
 
 def _known():
@@ -483,7 +485,7 @@ def _enumerate(tier, known):
         outcomes = [f"{c}:{VARIANTS[c][(k + i) % len(VARIANTS[c])]}" for i, c in enumerate(seq)]
         svc = [(k + i) % 3 for i in range(len(seq))]
         if full is not None:
-            grid = ((p, False) for p in full)
+            grid = full
         else:
             grid = []
             for j, (retries, rus, roe, rot) in enumerate(behaviours):
@@ -513,6 +515,8 @@ def _enumerate(tier, known):
                     p["retry-wait-period"] = w
                 grid.append((p, ctor))
             grid.append(({}, False))  # everything omitted: the documented defaults
+            # constructor default retry-until-success=True (get-async-search) switched off by the operation's own parameter
+            grid.append(({"retry-until-success": False, "retries": k % 4, "retry-on-error": k % 2 == 0}, True))
         for p, ctor in grid:
             case = {"outcomes": outcomes, "params": p, "ctor_rus": ctor, "svc": svc}
             if known and is_excluded(case, known):
